@@ -195,18 +195,21 @@ func cliMain() int {
 		// every kind of JSON value is looked at with its type, in arithmetic, in a condition and in a loop
 		fixedCli := []string{"return [Count, Big, Score, type(Count), type(Big), type(Score)];", "return Count + 1;", "if (Big > 100) { return Score * 2; } return Count - 1;",
 			"return [type(Name), type(Flag), type(Off), type(Tags), type(Nums), type(Nested), type(Nothing), type(Missing)];", "t = 0; foreach n in Nums { t = t + n; } return [t, len(Nums), len(Tags)];",
-			"return Nested.n + 1;", "return [Flag && !Off, Name + \"!\", len(Name)];", "return Count == 0 || Score == 0.5 || Big == 65535;"}
-		if i < len(fixedCli) {
+			"return Nested.n + 1;", "return [Flag && !Off, Name + \"!\", len(Name)];", "return Count == 0 || Score == 0.5 || Big == 65535;",
+			// printed values with characters that mean something to a formatter, a shell or a terminal
+			"return \"100%\";", "return sprintf(\"%d%%\", 75);", "return [\"%d\", \"%s%v\"];", "return {\"rate\": \"5%\", \"%t\": 1};", "return \"%!t(MISSING) %[1]d %%\";",
+			"return \"a\\\\b 'q' \\\"dq\\\" $HOME `x`\";", "return \"line1\\nline2\\ttab\";", "return \"日本 é \" + Name;", "return /a%b+/;", "return Name + \"%\" + string(Count);"}
+		fixed := i < len(fixedCli)
+		if fixed {
 			script = fixedCli[i]
 		}
-		switch i % 10 {
-		case 7:
-			if i >= len(fixedCli) {
-				script = randText(r, r.Intn(30)) // arbitrary text
-			}
-		case 8:
+		switch {
+		case fixed:
+		case i%10 == 7:
+			script = randText(r, r.Intn(30)) // arbitrary text
+		case i%10 == 8:
 			script = "while (true) { }"
-		case 9:
+		case i%10 == 9:
 			script = "return Nested.k + string(Nothing) + Name;"
 		}
 		doc := jsonDoc(r)
@@ -219,7 +222,7 @@ func cliMain() int {
 		}
 		os.WriteFile(jf, jb, 0o644)
 		noopt := r.Bool()
-		timeout := i%10 == 8 || r.Chance(20)
+		timeout := (!fixed && i%10 == 8) || r.Chance(20)
 		args := []string{"run", "-json", jf}
 		if noopt {
 			args = append(args, "-no-optimizer")
@@ -228,7 +231,7 @@ func cliMain() int {
 			args = append(args, "-timeout", "300ms")
 		}
 		args = append(args, sf)
-		if i%10 == 8 && !timeout {
+		if !fixed && i%10 == 8 && !timeout {
 			continue
 		}
 		out, code := runBin(args...)
